@@ -8,8 +8,8 @@
    for which BytesUntilLimit() = -1).  PushLimit(n) narrows the window to its first n bytes, PopLimit gives back
    what the inner parser left plus the bytes behind the limit: a parser cannot see bytes outside its window.
 
-   The code is modelled as it is, including: a failed read of a length prefix is ignored
-   (PushLimit(0)), ReadVarint failing without consuming when >= 10 continuation bytes are buffered,
+   The code is modelled as it is, including: ReadVarint failing without consuming when >= 10 continuation bytes
+   are buffered (a failed read of a length prefix is a parse failure since fix e367940),
    Skip(uint64 -> int) truncation, loops that make no progress (result [Hang]), vector<float>::reserve of
    BytesUntilLimit() = -1 (result [Crash]). *)
 From Coq Require Import ZArith List Bool.
@@ -256,19 +256,23 @@ Definition map_add (k v : val) (l : list val) : list val :=
 Section Decode.
 Variable nd : bool.   (* compiled with NDEBUG: the wire type of a known field is not checked *)
 
+(* the length-delimited branch of deserialize_packed_field / deserialize_field: a length prefix that cannot be read
+   is a parse failure ([fail_result] = the value returned, regenerated: 0 = false); the limit pushed is
+   static_cast<int>(length) (regenerated) *)
+Definition dec_len (limit_of : Z -> Z) (fail_result : Z) (d : dec) : dec := fun s cur =>
+  match read_varint s with
+  | VOk len s1 => with_limit (limit_of (u32 len)) s1 d cur
+  | _ => if fail_result =? 0 then Fail else Ok cur s
+  end.
+
 (* deserialize_packed_field *)
 Definition dec_packed (e : ty) (d : dec) : dec := fun s cur =>
-  if is_ld e then
-    match read_varint s with
-    | VOk len s1 => with_limit (swrap 32 (u32 len)) s1 d cur
-    | VStay => with_limit 0 s d cur
-    | VEat s1 => with_limit 0 s1 d cur
-    end
-  else d s cur.
+  if is_ld e then dec_len packed_limit_of_length packed_len_fail_result d s cur else d s cur.
 
 (* deserialize_field *)
 Definition dec_field (t : ty) (d : dec) (tag : Z) : dec := fun s cur =>
-  if negb nd && negb (tag_wire tag =? wire t) then Fail else dec_packed t d s cur.
+  if negb nd && negb (tag_wire tag =? wire t) then Fail
+  else if is_ld t then dec_len field_limit_of_length field_len_fail_result d s cur else d s cur.
 
 Definition shorter (s' s : stream) : bool := (length (win s') <? length (win s))%nat.
 
